@@ -45,6 +45,12 @@ BIG = [(B53 + 1, 9), (B53, 1), (B53 + 1, 5), (B53, 5), (B53 + 3, 10),
        (B53 + 2, 1), (B53, 7), (B53 + 1, 1), (B53 + 2, 5), (B53 + 3, 5)]
 
 
+# priorities beyond the named constants MIN_PRIORITY..MAX_PRIORITY (any int is
+# accepted): ties must still go to the higher priority
+WIDE = [(0, 11), (1, 12), (0, 12), (1, 0), (1, -1), (2, 100), (0, -5), (2, 11),
+        (1, 11), (0, 0)]
+
+
 class _T:
     def h(self):
         pass
@@ -86,6 +92,9 @@ def make_pool(kind, K, order, rot):
             tv, p = near[i]
             tv = _mk_time("duration", tv)
         elif kind == "subclasses":
+            tv = _mk_time("float", t)
+        elif kind == "wideprio":
+            t, p = (WIDE[rot % len(WIDE):] + WIDE[:rot % len(WIDE)])[i]
             tv = _mk_time("float", t)
         else:
             tv = _mk_time(kind, t)
@@ -182,9 +191,36 @@ def build(pool, hist, with_queries=True):
     from pydsol.core.eventlist import EventListHeap
     el = EventListHeap()
     ref = []
-    for op in hist:
-        apply_real(el, pool, op)
+    # a second event list in the same process, used in between (another
+    # simulator): the two lists have nothing to do with each other
+    other = EventListHeap()
+    oref = []
+    K = len(pool)
+    for j in (K - 1, 0):
+        apply_real(other, pool, ("add", j))
+        apply_ref(oref, pool, ("add", j))
+    el._verif_other = (other, oref)
+    for n, op in enumerate(hist):
+        try:
+            apply_real(el, pool, op)
+        except Exception:  # noqa  (reported when this op was the last one)
+            pass
         apply_ref(ref, pool, op)
+        if n % 3 == 0:
+            oop = ("add", (n // 3 + 1) % K)
+            if oop[1] in oref:
+                oop = ("remove", oop[1])
+        elif n % 3 == 1:
+            oop = ("pop",)
+        else:
+            oop = ("clear",) if n % 2 else ("add", n % K)
+            if oop[0] == "add" and oop[1] in oref:
+                oop = ("peek",)
+        try:
+            apply_real(other, pool, oop)
+        except Exception:  # noqa  (shows in the final comparison)
+            pass
+        apply_ref(oref, pool, oop)
         if with_queries:
             try:
                 el.peek_first()
@@ -257,6 +293,12 @@ def check_history(pool, K, hist, op):
     d = drain(el, pool)
     if d != ref:
         bad.append(("drain", d, list(ref)))
+    other, oref = el._verif_other
+    for b in observe_all(other, oref, pool, K):
+        bad.append(("second-list-query",) + b)
+    d = drain(other, pool)
+    if d != oref:
+        bad.append(("second-list-drain", d, list(oref)))
     return bad, c, present
 
 
@@ -389,7 +431,7 @@ def run(ctx):
     quick = ctx.tier == "quick"
     K = 7 if quick else 8
     kinds = ["int", "float", "mixed", "duration", "nearfloat",
-             "nearduration", "bigint", "subclasses"]
+             "nearduration", "bigint", "subclasses", "wideprio"]
     orders = ["index", "reversed"] if quick else ["index", "reversed",
                                                   "interleaved"]
     rots = [0, (ctx.seed % 9) + 1] if ctx.seed else [0]
